@@ -6,7 +6,7 @@ class C08(vlib.Spec):
     model_vo = ["theories/Coll/ModelGHT.vo"]
     props_vo = "theories/Props/C08.vo"
     theorems = ["C08_history", "C08_insert", "C08_contains", "C08_iter_nodup", "C08_merge", "C08_pcmp", "C08_pcmp_rel", "C08_eq",
-                "C08_prefix", "C08_find_leaf", "C08_join", "C08_join_nodup", "C08_cart", "C08_holds_b_sound"]
+                "C08_prefix", "C08_find_leaf", "C08_join", "C08_join_nodup", "C08_cart", "C08_force", "C08_holds_b_sound"]
     crate, group, binary = "h_coll", "light", "h_coll"
     imports = "From HV Require Import Coll.ModelGHT."
     harness_shards = 4
@@ -16,10 +16,10 @@ class C08(vlib.Spec):
                     "correspondence harness harness/h_coll + tools/coll.py"]
     assumptions = ["model validated against lattices::ght only on the generated histories",
                    "hash iteration order abstracted: row lists are compared as multisets",
-                   "set storage (VariadicHashSetStd) in the leaves; COLT force / `forced` flag not covered"]
+                   "set storage (VariadicHashSetStd) in the leaves; COLT force_drain / ColtGet / `forced` flag not covered (force is)"]
     rule = ("operation histories (1-40 ops) over two tries of one GhtType! shape (6 shapes: 0-3 key columns, "
             "0-2 value columns), tuple domain {0..3}^k: insert, merge_node / Merge::merge of the other trie, contains, "
-            "recursive_iter, prefix_iter (every prefix length), find_containing_leaf, partial_cmp, ==, height, is_bot, deep join (DeepJoinLatticeBimorphism) and root cartesian product (GhtCartesianProductBimorphism) of the two tries; "
+            "recursive_iter, prefix_iter (every prefix length), find_containing_leaf, partial_cmp, ==, height, is_bot, deep join (DeepJoinLatticeBimorphism) and root cartesian product (GhtCartesianProductBimorphism) of the two tries, COLT force on the root-leaf shape; "
             "every observation compared with the Coq model and with the abstract set of rows; non-trivial = at least "
             "one insert and one other op; distinct = distinct case JSON")
 
